@@ -1,0 +1,40 @@
+//go:build verif
+// +build verif
+
+package scanner
+
+import "github.com/jrivets/log4g"
+
+// VerifDesc is the exported shape of a file descriptor (desc) for the verification harness.
+type VerifDesc struct {
+	Id           string
+	File         string
+	Offset       int64
+	LastSeenSize int64
+}
+
+// VerifMergeDescs runs the real Scanner.mergeDescs on the given old/new descriptor sets and reports, for
+// every id of the result, the merged descriptor and whether it is the *old* object (kept) or the new one.
+func VerifMergeDescs(old, new []VerifDesc) (res []VerifDesc, keptOld []bool) {
+	s := &Scanner{logger: log4g.GetLogger("scanner")}
+	o, n := make(descs), make(descs)
+	for _, d := range old {
+		o[d.Id] = &desc{Id: d.Id, File: d.File, Offset: d.Offset, LastSeenSize: d.LastSeenSize}
+	}
+	for _, d := range new {
+		n[d.Id] = &desc{Id: d.Id, File: d.File, Offset: d.Offset, LastSeenSize: d.LastSeenSize}
+	}
+	m := s.mergeDescs(o, n)
+	for _, d := range new { // result order = order of `new` (the result's key set is new's key set)
+		md, ok := m[d.Id]
+		if !ok {
+			continue
+		}
+		res = append(res, VerifDesc{Id: md.Id, File: md.File, Offset: md.getOffset(), LastSeenSize: md.getLastSeenSize()})
+		keptOld = append(keptOld, md == o[d.Id])
+	}
+	return
+}
+
+// VerifStorageKey is the key under which the scanner persists its state.
+const VerifStorageKey = storageKeyName
